@@ -8,14 +8,15 @@ RULE = ("Hypothesis-generated histories (profile 'ordering': bursts from several
         "in the middle of a fan-out - peer gone with EPIPE/ECONNRESET/delayed failure, injected failure at a byte offset) run on the real manager over the in-memory network. Oracles: every byte stream "
         "the manager wrote parses into whole frames with nothing left over after every round; msg_count is 1,2,3,... per connection "
         "over all frame kinds; per receiver the messages of one sender arrive in send order; any two receivers see their common "
-        "messages in the same relative order. Non-trivial = a connection that received >=3 frames of >=2 kinds, or two receivers "
+        "messages in the same relative order (manager-originated messages with a payload - log records at debug/info level, notices - "
+        "included, identified by their bytes). Non-trivial = a connection that received >=3 frames of >=2 kinds, or two receivers "
         "sharing >=2 messages from >=2 senders; distinct = (kinds multiset class, count class) / (common count, sender count).")
 
 ORDERING = Profile(
     name="ordering",
     oracles={"order", "framing", "routing"},
     weights={STEP: 8, PUB: 16, SUB: 6, CONNECT: 2, OPEN: 1, DISCONNECT: 1, CLOSE: 1, READY: 1, SETNAME: 1},
-    types=[1234, 5000, 8, 80, 33, 32, 30, 31, 0, 2, 9999, 10000, -1, 42],
+    types=[1234, 5000, 8, 80, 33, 32, 30, 31, 0, 2, 9999, 10000, -1, 42, 45, 44],
     sizes=[0, 8, 65535, 1, 64, 4096, 7],
     max_pending_pubs=12,
     writable_all_bias=2,
@@ -53,7 +54,7 @@ def nontrivial(w, res):
 CHECK = SimCheck(
     "C05", [ORDERING, ORDERING, ORDERING_FAULTS],
     {"ordering": [{"timecode": False, "timing": True, "log": "error"}, {"timecode": True, "timing": True, "log": "info"},
-                  {"timecode": False, "timing": False, "log": "silent"}],
+                  {"timecode": False, "timing": False, "log": "silent"}, {"timecode": False, "timing": True, "log": "debug"}],
      "ordering-faults": [{"timecode": False, "timing": True, "log": "silent"}, {"timecode": True, "timing": False, "log": "silent"}]},
     RULE, ["per-sender order uses the harness' global publish counter, which increases in send order on each connection"],
     quick=(700, 60), thorough=(15000, 160), nontrivial=nontrivial,
